@@ -1256,6 +1256,14 @@ impl MdGen<'_> {
                 if lines.is_empty() {
                     lines.push("shell: bash".into());
                 }
+                // blank lines inside the front-matter, also directly in front of the closing `---`
+                if self.rng.chance(1, 5) {
+                    lines.push(String::new());
+                }
+                if self.rng.chance(1, 10) {
+                    let at = self.rng.below(lines.len() + 1);
+                    lines.insert(at, String::new());
+                }
             }
         }
         Block::FrontMatter {
